@@ -246,7 +246,7 @@ def gen_reply(rng, g, op):
         sd['kids'].insert(i, csd); exp[3].insert(i, cx)
     r = rng.random()
     if op == 'get_schema':
-        variants = [NCM] * 6 + [BASE, '']
+        variants = [NCM] * 14 + [BASE, '']
         ns = rng.choice(variants)
         dsd, dx = g.element(sc, g.max_depth, local='data', force_ns=ns)   # leaf: no element children
         body = rng.choice(['module m { }', 'module <m> & "q" {\n\tleaf x;\r\n}', X.gen_text(rng, 8, 0.05), ''])
@@ -255,7 +255,7 @@ def gen_reply(rng, g, op):
             if rng.random() < 0.15:
                 dsd['kids'].append({'k': 'c', 's': 'c'}); dx[3].append([2, b'c'])
                 dsd['kids'].append({'k': 't', 's': 'tail', 'cdata': False}); dx[3].append([1, b'tail'])
-        if rng.random() < 0.9: insert((dsd, dx))
+        if rng.random() < 0.96: insert((dsd, dx))
     else:
         if r < 0.85:
             if rng.random() < 0.2: insert(g.element(sc, 2, local='data', force_ns=rng.choice(['urn:u', ''])))   # decoy
@@ -286,8 +286,8 @@ OPS = {'default': ['get', 'get_config', 'get_schema', 'dispatch'], 'junos': ['ge
        'alu': ['get', 'get_config', 'get_schema', 'dispatch'], 'sros': ['get', 'get_config', 'get_schema', 'dispatch']}
 
 def cases_for(rng, tier):
-    n = 260 if tier == 'quick' else 2600
-    g = X.DocGen(rng, max_depth=4, max_kids=3)
+    n = 1000 if tier == "quick" else 5000
+    g = X.DocGen(rng, max_depth=4, max_kids=3, same_local_attrs=0.04)
     out = []
     for i in range(n):
         for prof in PROFILES:
